@@ -5,6 +5,7 @@ import (
 	"encoding/binary"
 	"fmt"
 	"math/rand/v2"
+	"regexp"
 	"sort"
 	"strings"
 	"sync"
@@ -53,6 +54,20 @@ type sim struct {
 	stats    map[string]int
 	pool     [][]byte
 	line     bool // gossip only between neighbours n(i) <-> n(i+1): updates must be relayed
+	// contended tokens. Two instances may claim the same token (concurrent joins on different nodes).
+	// rewrites=false: only the write-once entries c<i> claim tokens of the shared pool; the merge result
+	// is then a function of the set of entries and every node must settle the conflict the same way.
+	// rewrites=true: ordinary entries, which are rewritten and removed later, claim pool tokens too
+	// (generator "contended-rewrites", see the known finding on destructive conflict resolution).
+	rewrites    bool
+	onceWritten map[int]bool
+}
+
+var poolToken = regexp.MustCompile(` ?90000[0-2]`)
+
+// stripPool removes the shared-pool tokens from a canonical ring rendering.
+func stripPool(v string) string {
+	return strings.ReplaceAll(poolToken.ReplaceAllString(v, ""), "[ ", "[")
 }
 
 type delayedMsg struct {
@@ -68,6 +83,16 @@ func (s *sim) casRing(i int) {
 	cl := s.net.Client(i, ring.GetCodec())
 	kind := s.rng.IntN(10)
 	id := fmt.Sprintf("w%d-%d", i, s.rng.IntN(3))
+	once := false
+	if !s.rewrites && !s.onceWritten[i] && s.rng.IntN(4) == 0 {
+		// the write-once entry of node i: never rewritten or removed afterwards
+		once = true
+		id = fmt.Sprintf("c%d", i)
+		kind = 9
+		s.onceWritten[i] = true
+	}
+	onceState := ring.InstanceState(s.rng.IntN(4))
+	oncePool := uint32(900000 + s.rng.IntN(2))
 	var a acked
 	err := cl.CAS(context.Background(), simnet.RingKey, func(in interface{}) (interface{}, bool, error) {
 		d := ring.GetOrCreateRingDesc(in)
@@ -77,10 +102,23 @@ func (s *sim) casRing(i int) {
 		case kind == 0 && exists: // unregister own entry
 			delete(d.Ingesters, id)
 			a = acked{i, simnet.RingKey, id, now, true}
+		case once:
+			e = ring.InstanceDesc{Id: id, Addr: id, Zone: "z", State: onceState, Timestamp: now, RegisteredTimestamp: now,
+				Tokens: []uint32{uint32(i*1000 + 777), uint32(500000 + i*1000 + 777), oncePool}}
+			d.Ingesters[id] = e
+			a = acked{i, simnet.RingKey, id, now, false}
+			s.stats["ring_entries_with_contended_token"]++
 		default:
 			s.counter++
 			e = ring.InstanceDesc{Id: id, Addr: id, Zone: "z", State: ring.InstanceState(s.rng.IntN(4)), Timestamp: now,
 				Tokens: []uint32{uint32(i*1000 + s.counter%50), uint32(500000 + i*1000 + s.counter%50)}, RegisteredTimestamp: now}
+			// every third entry also claims a token from a small pool shared by all nodes (two instances
+			// joining concurrently on different nodes chose the same token): the merge has to settle the
+			// conflict the same way on every node. A function of (id, ts), as all entry content is.
+			if s.rewrites && (uint64(now)+uint64(i)+uint64(id[len(id)-1]))%3 == 0 {
+				e.Tokens = append(e.Tokens, uint32(900000+(uint64(now)/3)%3))
+				s.stats["ring_entries_with_contended_token"]++
+			}
 			if e.Tokens[0] > e.Tokens[1] {
 				e.Tokens[0], e.Tokens[1] = e.Tokens[1], e.Tokens[0]
 			}
@@ -272,7 +310,7 @@ func undecodable(msg []byte) bool {
 	return err != nil || k == ""
 }
 
-func runCluster(t *testing.T, run *vt.Run, c vt.CaseID, rng *rand.Rand, gossipOnly bool) {
+func runCluster(t *testing.T, run *vt.Run, c vt.CaseID, rng *rand.Rand, gossipOnly, rewrites bool) {
 	synctest.Test(t, func(t *testing.T) {
 		n := 2 + rng.IntN(5)
 		net, err := simnet.New(n, simnet.DefaultConfig(time.Hour))
@@ -281,7 +319,7 @@ func runCluster(t *testing.T, run *vt.Run, c vt.CaseID, rng *rand.Rand, gossipOn
 			return
 		}
 		defer net.Stop()
-		s := &sim{net: net, rng: rng, n: n, group: make([]int, n), stats: map[string]int{}}
+		s := &sim{net: net, rng: rng, n: n, group: make([]int, n), stats: map[string]int{}, rewrites: rewrites, onceWritten: map[int]bool{}}
 		s.line = gossipOnly && rng.IntN(2) == 0
 		viol := func(sig, what string, extra map[string]any) {
 			d := map[string]any{"nodes": n, "gossip_only": gossipOnly, "journal": tail(s.journal, 120), "stats": s.stats}
@@ -421,7 +459,11 @@ func runCluster(t *testing.T, run *vt.Run, c vt.CaseID, rng *rand.Rand, gossipOn
 			for j := 1; j < n; j++ {
 				if v := net.Visible(j, key); v != ref {
 					sig := "divergence-after-recovery"
-					if gossipOnly {
+					if rewrites && key == simnet.RingKey && stripPool(v) == stripPool(ref) {
+						// the nodes differ only in who holds a token that two instances claimed and one of the
+						// claimants was rewritten or removed afterwards
+						sig = "divergence/contended-token-after-claimant-rewritten"
+					} else if gossipOnly {
 						sig = "divergence-after-lossless-gossip"
 						if s.line {
 							sig += "/relay-topology"
@@ -565,12 +607,21 @@ func TestC06(t *testing.T) {
 	run.Assume("tombstone retention (1 h) is longer than any schedule, so late stale deliveries cannot legitimately resurrect entries")
 	run.ForEachT(t, "adversarial", vt.N(700, 25000), func(t *testing.T, c vt.CaseID, rng *rand.Rand, s *vt.Slot) {
 		s.Enter(c, "crash/adversarial")
-		runCluster(t, run, c, rng, false)
+		runCluster(t, run, c, rng, false, false)
 		s.Leave()
 	})
 	run.ForEachT(t, "gossip-only", vt.N(500, 15000), func(t *testing.T, c vt.CaseID, rng *rand.Rand, s *vt.Slot) {
 		s.Enter(c, "crash/gossip-only")
-		runCluster(t, run, c, rng, true)
+		runCluster(t, run, c, rng, true, false)
+		s.Leave()
+	})
+	// token conflicts between entries that are rewritten or removed later (a known finding: the stored
+	// resolution is destructive, so the outcome depends on the order in which a node saw the versions);
+	// every other judgement applies unchanged, and a divergence in anything but the holder of a
+	// contended token is reported as usual
+	run.ForEachT(t, "contended-rewrites", vt.N(120, 3000), func(t *testing.T, c vt.CaseID, rng *rand.Rand, s *vt.Slot) {
+		s.Enter(c, "crash/contended-rewrites")
+		runCluster(t, run, c, rng, c.Idx%2 == 0, true)
 		s.Leave()
 	})
 	_ = sort.Strings
